@@ -245,9 +245,31 @@ def _wide(_):
     return st
 
 
+def _orders(_):
+    """interactions of several orders in one table (a reference model can contribute 3-way combinations to an order-2 run): every ' AND ' feature counts for each of its constituents"""
+    st = Stats()
+    d = scratch_dir('c18o')
+    try:
+        base = [('f AND label2', 'label', 0.5), ('f AND label2 AND BRAND', 'label', 1), ('label', 'BRAND AND f', 0.25), ('f', 'label', 0), ('label2 AND BRAND AND f AND g', 'label', -1)]
+        global CARD
+        CARD = dict(CARD, **{'f AND label2 AND BRAND': '(9; 100)', 'BRAND AND f': '(7; 100)', 'label2 AND BRAND AND f AND g': '(11; 90)'})
+        for k in range(2, len(base) + 1):
+            for rows in itertools.combinations(base, k):
+                for heuristic, order, annotated in (('MI-numba-randomized', 2, True), ('AMI', 3, False), ('correlation-Pearson', 2, False)):
+                    st.count('evaluations')
+                    st.count('nontrivial')
+                    st.count('mixed_order_cases')
+                    for sig, msg in judge(list(rows), heuristic, order, annotated, d):
+                        st.violation({'rows': [list(r) for r in rows], 'heuristic': heuristic, 'order': order, 'annotated': annotated}, msg, dict(sig, heuristic=heuristic, mixed_orders=True))
+    finally:
+        rm_scratch(d)
+    return st
+
+
 def run(ctx):
     ctx.stats.merge(_seqdiff(None))
     ctx.stats.merge(_wide(None))
+    ctx.stats.merge(_orders(None))
     jobs = []
     kmax = 4 if ctx.thorough else 3
     for k in range(1, kmax + 1):
@@ -264,6 +286,8 @@ def run(ctx):
 
 
 def eval_case(case):
+    global CARD
+    CARD = dict(CARD, **{'f AND label2 AND BRAND': '(9; 100)', 'BRAND AND f': '(7; 100)', 'label2 AND BRAND AND f AND g': '(11; 90)'})
     if case.get('kind') == 'wide':
         return [v['what'] for v in _wide(None).violations if v['case']['heuristic'] == case['heuristic'] and v['case']['tldr'] == case['tldr']]
     if case.get('kind') == 'seqdiff':
